@@ -116,16 +116,22 @@ Proof.
   rewrite <- Z.lxor_lor by exact H. rewrite <- Z.add_nocarry_lxor by exact H. reflexivity.
 Qed.
 
+(* however the source spells the state mask (`!COUNT_MASK`, a named constant, a helper function inlined by the
+   translator): it is a closed term, evaluate it; then remove the translator's binds of inlined helpers *)
+Ltac state_mask3 :=
+  unfold obind;
+  match goal with |- context [Z.land _ ?m] => let m' := eval vm_compute in m in change m with m' end.
+
 Lemma is_prep_spec c st : 0 <= c <= CMAX -> 0 <= st < 4 -> count_is_prep (pack c st) = Some (st =? 0).
 Proof.
-  intros Hc Hs. unfold count_is_prep, pack, CMAX in *. destruct count_consts as (_ & _ & M). rewrite M.
-  change (lnot64 18446744073709551612) with 3. rewrite land_low2 by lia. f_equal. f_equal. lia.
+  intros Hc Hs. unfold count_is_prep, pack, CMAX in *. state_mask3.
+  rewrite land_low2 by lia. f_equal. f_equal. lia.
 Qed.
 
 Lemma is_zombie_spec c st : 0 <= c <= CMAX -> 0 <= st < 4 -> count_is_zombie (pack c st) = Some (st =? 2).
 Proof.
-  intros Hc Hs. unfold count_is_zombie, pack, CMAX in *. destruct count_consts as (_ & _ & M). rewrite M.
-  change (lnot64 18446744073709551612) with 3. rewrite land_low2 by lia. f_equal. f_equal. lia.
+  intros Hc Hs. unfold count_is_zombie, pack, CMAX in *. state_mask3.
+  rewrite land_low2 by lia. f_equal. f_equal. lia.
 Qed.
 
 (** * MinRc: the hand-rolled count frees exactly on 1 -> 0 and never underflows *)
